@@ -31,6 +31,21 @@ TRICKY_STRINGS = ['\ufeff', '\ufeffabc', 'a\ufeff', 'e\u0301', 'cafe\u0301', '\u
 NAME_OK = "abzAZ059-_.:@#,/ "
 NAME_BAD = "\n\t!$%&'()*+;<=>?[\\]^`{|}~\x00\x7f\xe9€\U0001f600"
 
+# names a broker, a client library or an application gives to table entries and headers
+WELL_KNOWN_KEYS = ['x-message-ttl', 'x-expires', 'x-max-length', 'x-max-length-bytes', 'x-max-priority', 'x-dead-letter-exchange',
+                   'x-dead-letter-routing-key', 'x-queue-type', 'x-overflow', 'x-delivery-limit', 'x-death', 'x-match', 'CC', 'BCC',
+                   'x-priority', 'x-stream-offset', 'x-cancel-on-ha-failover', 'x-single-active-consumer', 'x-queue-mode',
+                   'x-queue-master-locator', 'x-ha-policy', 'alternate-exchange', 'x-delayed-type', 'x-delay', 'x-received-from',
+                   'x-first-death-reason', 'x-first-death-queue', 'x-delivery-count', 'x-max-age', 'x-stream-max-segment-size-bytes',
+                   'x-consumer-timeout', 'x-max-in-memory-length', 'x-quorum-initial-group-size', 'traceparent', 'content-type',
+                   'product', 'version', 'platform', 'capabilities', 'information', 'copyright', 'cluster_name', 'connection_name',
+                   'publisher_confirms', 'basic.nack', 'consumer_cancel_notify', 'exchange_exchange_bindings', 'count', 'reason',
+                   'queue', 'time', 'exchange', 'routing-keys', 'original-expiration', 'X-MESSAGE-TTL', 'x-message-ttl ']
+# strings that mean something to a formatting / templating / escaping step
+FORMAT_STRINGS = ['{}', '{0}', '{1}', '{x}', '{0.name}', '{!r}', '{:>10}', '{{}}', '{', '}', '%s', '%d', '%(x)s', '%', '%%', '${x}', '$x',
+                  '\\', '\\n', '\\x00', "'", '"', '`', 'a{b}c', 'key {}', '{0}{1}']
+MINED_STRINGS = []     # string literals of the current pamqp source (set by check.py): names the code treats specially
+
 F32_EDGE_BITS = [
     0x0000000000000000, 0x8000000000000000, 0x3ff0000000000000, 0xbff0000000000000,
     0x7ff0000000000000, 0xfff0000000000000, 0x7ff8000000000000, 0x7ff0000000000001, 0xfff8000000000123,
@@ -97,6 +112,8 @@ class Gen:
             return ''
         if k < 0.16:
             return r.choice(TRICKY_STRINGS)
+        if k < 0.18:
+            return r.choice(FORMAT_STRINGS + WELL_KNOWN_KEYS + MINED_STRINGS)[:maxlen]
         if k < 0.2:
             n = r.choice([1, 2, 127, 128, 129, 255, 256, 257])
             n = min(n, maxlen) if maxlen < n else n
@@ -130,6 +147,9 @@ class Gen:
         if k < 0.2:
             return r.choice(['a', 'b', 'A', 'aa', 'ab', 'x-death', '\xe9', 'z' * 128, 'k' * 127, '€' * 85,
                              '\U0001f600' * 63, 'a\x00', 'a '])
+        if k < 0.34:
+            c = r.choice(WELL_KNOWN_KEYS if r.random() < 0.6 else (FORMAT_STRINGS + [m for m in MINED_STRINGS if 0 < len(m) <= 128]))
+            return c if len(c.encode('utf-8', 'replace')) <= 255 else c[:60]
         n = r.randrange(1, 12)
         s = ''.join(chr(self.codepoint()) for _ in range(n))
         while len(s.encode('utf-8')) > 255:
@@ -241,7 +261,39 @@ class Gen:
             return base.replace(tzinfo=UTC)
 
     # ---------------------------------------------------------------- field values
+    exotic = False      # oracles that take any value switch this on: subclass instances of the value types
+
+    def exotic_of(self, v):
+        """the same value as an instance of a well-behaved subclass (str-mixin Enum, IntEnum, Decimal subclass ...)"""
+        import ocommon as O
+        r = self.r
+        if isinstance(v, bool) or v is None:
+            return v
+        if isinstance(v, int):
+            return r.choice([m for m in list(O.VIntEnum) + list(O.VIntFlag) if -2 ** 63 <= m < 2 ** 63]) if r.random() < 0.4 else O.VInt(v)
+        if isinstance(v, float):
+            return O.VFloat(v)
+        if isinstance(v, str):
+            return r.choice([m for m in O.VStrEnum if len(m.value) <= 255]) if r.random() < 0.3 else O.VStr(v)
+        if isinstance(v, bytearray):
+            return O.VByteArray(v)
+        if isinstance(v, decimal.Decimal):
+            return O.VDecimal(v)
+        if isinstance(v, datetime.datetime):
+            return O.VDateTime(v.year, v.month, v.day, v.hour, v.minute, v.second, v.microsecond, tzinfo=v.tzinfo, fold=v.fold)
+        if isinstance(v, list):
+            return O.VList(v)
+        if isinstance(v, dict):
+            return O.VDict(v)
+        return v
+
     def scalar_ok(self):
+        v = self.scalar_plain_ok()
+        if self.exotic and self.r.random() < 0.1:
+            return self.exotic_of(v)
+        return v
+
+    def scalar_plain_ok(self):
         r = self.r
         k = r.randrange(10)
         if k == 0:
@@ -275,6 +327,8 @@ class Gen:
             v = self.table_ok(depth - 1, breadth)
         if pool is not None and len(pool) < 6:
             pool.append(v)
+        if self.exotic and r.random() < 0.06:
+            return self.exotic_of(v)
         return v
 
     def shared_value_ok(self, depth=3, breadth=4):
